@@ -185,7 +185,14 @@ type NameOpts struct {
 	Punct   string // inner punctuation characters allowed
 	MaxLen  int    // maximum number of runes (default 12)
 	MinLen  int
+	// Edge: punctuation that may also begin or end a name. Only characters the parser does not
+	// treat as syntax at the ends of a name qualify (not blank, tab, colon, quote, dash, and not
+	// '#' at the start).
+	Edge string
 }
+
+// EdgePunct is the punctuation that is legitimate at either end of a name.
+const EdgePunct = "=+@.,;'()&%*!?_\\[]{}<>|~^$"
 
 func letterOrDigit(r *rand.Rand, o NameOpts) rune {
 	if o.Unicode && r.Intn(3) == 0 {
@@ -212,7 +219,12 @@ func Name(r *rand.Rand, o NameOpts) string {
 	}
 	n := min + r.Intn(max-min+1)
 	rs := make([]rune, 0, n)
-	rs = append(rs, letterOrDigit(r, o))
+	edge := []rune(o.Edge)
+	if len(edge) > 0 && n > 1 && r.Intn(6) == 0 {
+		rs = append(rs, edge[r.Intn(len(edge))])
+	} else {
+		rs = append(rs, letterOrDigit(r, o))
+	}
 	for len(rs) < n-1 {
 		k := r.Intn(20)
 		switch {
@@ -235,8 +247,12 @@ func Name(r *rand.Rand, o NameOpts) string {
 		}
 	}
 	if n > 1 || len(rs) > 1 {
-		// last rune: letter or digit; if Slash, the rune before it must not leave a blank before '/'
-		rs = append(rs, letterOrDigit(r, o))
+		// last rune: letter or digit (or edge punctuation)
+		if len(edge) > 0 && r.Intn(6) == 0 {
+			rs = append(rs, edge[r.Intn(len(edge))])
+		} else {
+			rs = append(rs, letterOrDigit(r, o))
+		}
 	}
 	s := string(rs)
 	if o.Slash {
